@@ -722,7 +722,7 @@ func emitHandshakeResults(run *Run, res []hsResult) {
 
 // ---------------------------------------------------------------------------------------------
 
-const hsTimeout = 3 * time.Second
+const hsTimeout = 15 * time.Second // generous: a slow machine must not turn a handshake into a failure
 
 // serveMOSN accepts connections on a loopback TCP listener and passes each through the real manager's Conn().
 type srvOutcome struct {
